@@ -334,6 +334,18 @@ class Run:
         return path
 
     # ------------------------------------------------------------ reporting
+    def _solvers_used(self):
+        names = {"z3": "z3 5.1.0 (z3-new -in)", "cvc5int": "cvc5 1.0 --solve-bv-as-int=sum", "cvc5": "cvc5 1.0",
+                 "z3old": "z3 4.8.12"}
+        cnt = {}
+        for o in self.obls:
+            sv = getattr(o.result, "solver", None) if o.result is not None else None
+            if sv:
+                cnt[names.get(sv, sv)] = cnt.get(names.get(sv, sv), 0) + 1
+        if not cnt:
+            return "z3 5.1.0 (z3-new -in)"
+        return "; ".join(f"{k}: {v} obligations" for k, v in sorted(cnt.items(), key=lambda kv: -kv[1]))
+
     def finish(self, known_findings=None):
         self.solve_all()
         discharged = sum(1 for o in self.obls if o.result and o.result.status == o.expect
@@ -362,7 +374,7 @@ class Run:
             "functions_encoded": self.functions,
             "bounds": self.bounds,
             "outside_the_claim": self.outside,
-            "solver": "z3 5.1.0 (z3-new -in)" + (", cross-checked with /usr/bin/z3 4.8.12" if self.cross_solvers else ""),
+            "solver": self._solvers_used() + (", cross-checked with /usr/bin/z3 4.8.12" if self.cross_solvers else ""),
             "solver_timeout_s": self.solver_timeout,
             "solver_time_s": round(solver_time, 2),
             "translator_validation": self.validation,
